@@ -244,7 +244,7 @@ PROPS = {
     ),
     "C12": dict(
         module="SeliumModel.Props.C12",
-        suites=["e2erec"],
+        suites=["e2erec", "e2ereq"],
         level="proof",
         rule="library publisher / subscriber / replier / requestor over loopback QUIC; the harness cuts the client's QUIC connection with the verif-hooks method (1, 3, 4 and 6 successive outages against budgets of 1-3 attempts, i.e. more outages than one budget) and checks after each outage that traffic sent after recovery is carried; exhaustion: the server is replaced by an impostor with another CA so that every attempt fails, the stream must report too-many-retries; outcomes compared with the Lean retry model; distinct = distinct case lines",
         trusted_base=COMMON_TRUST + [
